@@ -299,7 +299,7 @@ def svc_replay(case, res: Result):
 
 
 # ------------------------------------------------------------------ PinchProblem histories
-PP_EVENTS = ["load_a", "load_b", "load_a_model", "load_b_csv", "target", "export"]
+PP_EVENTS = ["load_a", "load_b", "load_a_model", "load_b_csv", "target", "export", "load_missing"]
 
 
 def pp_explore(tier, inst, shard, nshards):
@@ -373,6 +373,27 @@ def pp_run(inst, hist, res, case):
                     pp.load(csvs); loaded = 1; via_model = True; cur = "c"
                 elif ev == "load_a_model":
                     pp.load(model_a); loaded = 0; via_model = True; cur = "m"
+                elif ev == "load_missing":
+                    # a load that fails: afterwards the wrapper either still holds the earlier problem, whole, or holds none
+                    try:
+                        pp.load(os.path.join(tmp, "No such plant.json"))
+                        res.violate("load_of_missing_file_accepted", case, {"step": step}, "pp:load_of_missing_file_accepted")
+                    except Exception:
+                        pass
+                    res.transitions += 1
+                    if loaded is not None:
+                        try:
+                            out = pp.target()
+                        except RuntimeError:
+                            loaded, cur, held = None, None, None          # the failed load emptied the wrapper: consistent
+                        else:
+                            if canon_output(out) != ref[cur]:
+                                a, b = json.loads(canon_output(out)), json.loads(ref[cur])
+                                res.violate("wrapper_result_ne_fresh_result_of_loaded_problem", case,
+                                            {"step": step, "history": [PP_EVENTS[i] for i in hist], "after": "a load that raised",
+                                             "targets": [(t["name"], t["Qh"]) for t in a["targets"]][:4], "fresh": [(t["name"], t["Qh"]) for t in b["targets"]][:4]},
+                                            "pp:result_ne_fresh:after-failed-load")
+                            held = (pp.master_zone, _zone_tables(pp.master_zone))
                 elif ev == "target":
                     if loaded is None:
                         try:
@@ -458,6 +479,6 @@ SUBCHECKS = {
         describe="all sequences of PinchProblem load/target/export calls: target() equals the fresh result of the currently loaded problem, module state unchanged",
         rule="state = module digest; non-trivial = every history (all contain a wrapper call); outcomes = (loaded problem, last event)",
         explore=pp_explore, replay=pp_replay, prepare=lambda tier, inst: fresh_reference(inst),
-        bound=lambda t: "all histories of <=3 of 6 events + <=4 of the 4 events {load JSON, load CSV pair, target, export}" if t == "quick" else "all histories of <=4 of 6 events + <=5 of the 4 core events",
+        bound=lambda t: "all histories of <=3 of 7 events (one of them a load that fails) + <=4 of the 4 events {load JSON, load CSV pair, target, export}" if t == "quick" else "all histories of <=4 of 7 events + <=5 of the 4 core events",
     ),
 }
